@@ -120,10 +120,14 @@ class Path(object):
         if len(options) == 1:
             return options[0]
         idx = self.input_int(name, 0, len(options) - 1)
-        for k, o in enumerate(options[:-1]):
-            if self.branch(idx.e == k):
-                return o
-        return options[-1]
+        lo, hi = 0, len(options) - 1
+        while lo < hi:                      # binary search: log2(n) decisions per choice
+            mid = (lo + hi) // 2
+            if self.branch(idx.e <= mid):
+                hi = mid
+            else:
+                lo = mid + 1
+        return options[lo]
 
     # ---- path condition
     def assume(self, e, keep_model=False):
